@@ -65,6 +65,9 @@ func genValue(r *core.Rand) string {
 // genRule produces a rule string from the grammar (valid with high probability).
 func genRule(r *core.Rand, forApply bool) string {
 	n := genName(r)
+	if !forApply && r.Chance(6) {
+		n = confuse(r, n)
+	}
 	switch r.Intn(9) {
 	case 0:
 		return "-" + n
@@ -139,6 +142,44 @@ func genRule(r *core.Rand, forApply bool) string {
 			return n + genValue(r)
 		}
 	}
+}
+
+// confusables are runes outside ASCII that Unicode relates to an ASCII letter or digit: the two that
+// simple case folding maps INTO a–z (U+212A KELVIN SIGN ~ k, U+017F LONG S ~ s; a case-insensitive
+// regexp class [a-z] matches them), dotted/dotless i, full-width forms, a Greek and a Cyrillic
+// look-alike, a combining mark and a non-breaking hyphen. A rule whose name holds one is not a legal
+// field name whatever the rule kind, so the parser has to refuse it.
+var confusables = map[byte][]string{
+	'k': {"\u212a"}, 'K': {"\u212a"}, 's': {"\u017f"}, 'S': {"\u017f"},
+	'i': {"\u0131", "\u0130"}, 'I': {"\u0130", "\u0131"},
+	'a': {"\uff41", "\u0430", "\u03b1"}, 'A': {"\uff21", "\u0391"}, 'e': {"\u0435", "e\u0301"},
+	'o': {"\u03bf", "\uff4f"}, 'c': {"\u0441"}, 'p': {"\u0440"}, 'x': {"\u0445"},
+	'-': {"\u2011", "\u2010", "\uff0d"}, '0': {"\uff10"}, '9': {"\uff19"},
+}
+
+// confuse replaces one character of n by a non-ASCII relative (preferring k and s, the two letters a
+// folding regexp would let through), or inserts one where n has no letter with a relative.
+func confuse(r *core.Rand, n string) string {
+	var at []int
+	var ks []int
+	for i := 0; i < len(n); i++ {
+		if _, ok := confusables[n[i]]; ok {
+			at = append(at, i)
+			switch n[i] {
+			case 'k', 'K', 's', 'S':
+				ks = append(ks, i)
+			}
+		}
+	}
+	if len(ks) > 0 && r.Chance(70) {
+		at = ks
+	}
+	if len(at) == 0 {
+		i := r.Intn(len(n) + 1)
+		return n[:i] + core.Pick(r, []string{"\u212a", "\u017f", "\u0131", "\u00e9"}) + n[i:]
+	}
+	i := at[r.Intn(len(at))]
+	return n[:i] + core.Pick(r, confusables[n[i]]) + n[i+1:]
 }
 
 // genSemi produces rule strings around the set-empty / add boundary: something ending in ';',
